@@ -3,12 +3,14 @@ package main
 // Symbolic execution engine: states, heap, obligations, the stepping loop, loops cut at headers.
 
 import (
+	"context"
 	"fmt"
 	"go/token"
 	"go/types"
 	"os"
 	"sort"
 	"strings"
+	"time"
 
 	"golang.org/x/tools/go/ssa"
 )
@@ -78,6 +80,7 @@ type State struct {
 	imprecise []string
 	epoch   int
 	pending []pendingHavoc
+	alias   map[string]string
 }
 
 type ownedObj struct {
@@ -106,6 +109,12 @@ func (s *State) clone() *State {
 	n.owned = append([]ownedObj{}, s.owned...)
 	n.imprecise = s.imprecise
 	n.pending = append([]pendingHavoc{}, s.pending...)
+	if s.alias != nil {
+		n.alias = make(map[string]string, len(s.alias))
+		for k, v := range s.alias {
+			n.alias[k] = v
+		}
+	}
 	for _, f := range s.frames {
 		nf := *f
 		nf.regs = make(map[ssa.Value]Val, len(f.regs))
@@ -143,6 +152,17 @@ func (s *State) assume(t string) {
 	}
 	s.facts[t] = true
 	s.pc = append(s.pc, t)
+	// (= sym term): remember the definition so that later tests of sym can be decided syntactically
+	if strings.HasPrefix(t, "(= |") {
+		if parts := sexpParts(t); len(parts) == 3 && strings.HasPrefix(parts[1], "|") && strings.HasSuffix(parts[1], "|") {
+			if s.alias == nil {
+				s.alias = map[string]string{}
+			}
+			if _, dup := s.alias[parts[1]]; !dup {
+				s.alias[parts[1]] = parts[2]
+			}
+		}
+	}
 }
 
 // knownTrue/False: purely syntactic
@@ -158,6 +178,14 @@ func (s *State) known(t string) (val bool, ok bool) {
 	}
 	if s.facts[not(t)] {
 		return false, true
+	}
+	if a, ok := s.alias[t]; ok {
+		return s.known(a)
+	}
+	if strings.HasPrefix(t, "(not ") {
+		if v, ok := s.known(t[5 : len(t)-1]); ok {
+			return !v, true
+		}
 	}
 	return false, false
 }
@@ -194,6 +222,8 @@ type Engine struct {
 	secs     float64
 	sitePos  map[string]string
 	softs    []string
+	nprune   int
+	debugForks map[string]int
 	ncover   int
 	covers   map[string][][]string
 	stableMode bool
@@ -209,7 +239,7 @@ type Engine struct {
 func newEngine(P *Program, fn *ssa.Function, con *Contract) *Engine {
 	return &Engine{P: P, fn: fn, con: con, declSet: map[string]bool{}, obls: map[string]*Obl{}, maxPaths: 4000,
 		siteOrd: map[string]int{}, usedExterns: map[string]bool{}, usedContracts: map[string]bool{}, havocCalls: map[string]int{},
-		lenFacts: map[string]bool{}, debug: os.Getenv("GOVC_DEBUG") != "", keySort: map[string]string{}, paramVals: map[string]Val{}, usedTypeInvs: map[string]bool{}, visibilityFrames: map[string]bool{}, uncheckedAssumes: map[string]bool{}}
+		lenFacts: map[string]bool{}, debug: os.Getenv("GOVC_DEBUG") != "", debugForks: forkMap(), keySort: map[string]string{}, paramVals: map[string]Val{}, usedTypeInvs: map[string]bool{}, visibilityFrames: map[string]bool{}, uncheckedAssumes: map[string]bool{}}
 }
 
 func (e *Engine) decl(name, srt string) {
@@ -786,14 +816,24 @@ func (e *Engine) step(st *State) (succ []*State, cont bool) {
 		st.assume(c.T)
 		s2.assume(not(c.T))
 		e.paths++
+		if e.debugForks != nil {
+			e.debugForks[posString(e.P.prog.Fset, e.posOf(fr, x.Cond))+" "+e.P.srcLine(e.P.prog.Fset.Position(e.posOf(fr, x.Cond)).Filename, e.P.prog.Fset.Position(e.posOf(fr, x.Cond)).Line)]++
+		}
 		if e.paths > e.maxPaths {
 			e.aborted = fmt.Sprintf("path budget (%d)", e.maxPaths)
 			return nil, false
 		}
 		var out []*State
+		// beyond a few dozen paths infeasible branches are pruned with the solver (cheap queries);
+		// pruning an infeasible branch never loses an obligation that could fail
+		prune := e.paths > 48
 		// push else first so that then-branch is explored first (LIFO)
-		out = append(out, e.gotoBlock(s2, s2.top().block.Succs[1])...)
-		out = append(out, e.gotoBlock(st, fr.block.Succs[0])...)
+		if !prune || e.feasible(s2) {
+			out = append(out, e.gotoBlock(s2, s2.top().block.Succs[1])...)
+		}
+		if !prune || e.feasible(st) {
+			out = append(out, e.gotoBlock(st, fr.block.Succs[0])...)
+		}
 		return out, false
 	case *ssa.Jump:
 		return e.gotoBlock(st, fr.block.Succs[0]), false
@@ -1186,4 +1226,25 @@ func (e *Engine) applicable(st *State, cls []*Clause) []*Clause {
 		out = append(out, c)
 	}
 	return out
+}
+
+
+func forkMap() map[string]int {
+	if os.Getenv("GOVC_FORKS") != "" {
+		return map[string]int{}
+	}
+	return nil
+}
+
+
+// feasible: is the path condition satisfiable? (unknown / timeout count as feasible)
+func (e *Engine) feasible(st *State) bool {
+	body := and(st.pc...)
+	ax := e.axiomText()
+	q := "(set-option :timeout 1500)\n" + e.usedDecls(body+ax) + ax + "(assert " + body + ")\n(check-sat)\n"
+	ctx, cancel := context.WithTimeout(context.Background(), 5*time.Second)
+	defer cancel()
+	out, _ := runSolver(ctx, "z3-new", []string{"-in"}, q)
+	e.nprune++
+	return firstLine(out) != "unsat"
 }
